@@ -42,6 +42,17 @@ AristaDefs == << Tab(<<"ip", "community-list">>, "comm", 0, FALSE), Tab(<<"ip", 
                  Tab(<<"ip", "large-community-list">>, "large", 0, FALSE),
                  Tab(<<"ip", "prefix-list">>, "pl4", 0, FALSE), Tab(<<"ipv6", "prefix-list">>, "pl6", 0, FALSE),
                  Tab(<<"ip", "as-path", "access-list">>, "asp", 0, FALSE) >>
+\* FRR text of the cumulus generator (one stream: list definitions first, then route-maps whose body lines are indented by one blank)
+CumulusRefs == << Tab(<<"match", "community">>, "comm", 0, FALSE), Tab(<<"match", "large-community-list">>, "large", 0, FALSE),
+                  Tab(<<"match", "extcommunity">>, "ext", 0, FALSE),
+                  Tab(<<"match", "ip", "address", "prefix-list">>, "pl4", 0, FALSE), Tab(<<"match", "ipv6", "address", "prefix-list">>, "pl6", 0, FALSE),
+                  Tab(<<"match", "as-path">>, "asp", 0, FALSE), Tab(<<"set", "comm-list">>, "comm", 0, FALSE) >>
+CumulusDefs == << Tab(<<"bgp", "community-list">>, "comm", 1, FALSE), Tab(<<"bgp", "extcommunity">>, "ext", 1, FALSE),
+                  Tab(<<"bgp", "large-community-list">>, "large", 1, FALSE),
+                  Tab(<<"ip", "prefix-list">>, "pl4", 0, FALSE), Tab(<<"ipv6", "prefix-list">>, "pl6", 0, FALSE),
+                  Tab(<<"ip", "as-path", "access-list">>, "asp", 0, FALSE) >>
+RefsOf(vendor) == CASE vendor = "huawei" -> HuaweiRefs [] vendor = "arista" -> AristaRefs [] OTHER -> CumulusRefs
+DefsOf(vendor) == CASE vendor = "huawei" -> HuaweiDefs [] vendor = "arista" -> AristaDefs [] OTHER -> CumulusDefs
 RECURSIVE NamesFrom(_, _)
 NamesFrom(ws, many) == IF ws = <<>> \/ Head(ws) \in STOP THEN {} ELSE {Head(ws)} \cup (IF many THEN NamesFrom(Tail(ws), many) ELSE {})
 \* `match as-path length ...` and `set as-path ...` are not references; `regexp` after a defining prefix is a modifier, not a name
